@@ -687,7 +687,10 @@ class PoolWorld(HistoryWorld):
             return None
         c = e['lib']
         kw = dict(has_idx=bool(op['idx']), hash_crc32=bool(op['crc']), has_cache_bits=bool(op['cache']))
-        ok, data = call(c.to_boc, **kw)
+        if len(st.callers[k].blobs) % 2:
+            ok, data = call(c.to_boc, bool(op['idx']), bool(op['crc']), bool(op['cache']))     # positional spelling
+        else:
+            ok, data = call(c.to_boc, **kw)
         if not ok:
             if self.prop == 'C03':
                 self.V(ctx, 'serialise-fails', 'to_boc', _shape_class(e['twin']), 'to_boc(%s) of a valid DAG (%s) raised %r' % (kw, _shape_class(e['twin']), data))
